@@ -97,6 +97,37 @@ def Iter.runS : Nat → Iter → List Term × Iter
 
 def Iter.run (n : Nat) (it : Iter) : List Term := (Iter.runS n it).1
 
+/-- The items a FAILING `next` computes and throws away, in the order they are computed
+    (`map(f, a, b)`: the item of `a` when `b` has ended).  Only needed to predict which exception
+    surfaces when an element operation raises; `[]` when `next` succeeds. -/
+def Iter.lost : Iter → List Term
+  | .list _ _ => []
+  | .rep _ => []
+  | .cycle _ _ => []
+  | .chain a b =>
+    match a.step with
+    | (some _, _) => []
+    | (none, _) => a.lost ++ (match b.step with | (some _, _) => [] | (none, _) => b.lost)
+  | .mapc _ _ _ a =>
+    match a.step with
+    | (some _, _) => []
+    | (none, _) => a.lost
+  | .map2 _ a b =>
+    match a.step with
+    | (none, _) => a.lost
+    | (some x, _) =>
+      match b.step with
+      | (none, _) => x :: b.lost
+      | (some _, _) => []
+
+/-- the lost items of the `next` that ended `take(n)` (none if `n` items were delivered) -/
+def Iter.runL : Nat → Iter → List Term
+  | 0, _ => []
+  | n + 1, it =>
+    match it.step with
+    | (none, _) => it.lost
+    | (some _, it') => Iter.runL n it'
+
 /-- Items still unread in every `list` leaf, as (tag, count) (what a counting source observes). -/
 def Iter.unread : Iter → List (Nat × Nat)
   | .list t xs => [(t, xs.length)]
